@@ -1,0 +1,46 @@
+//! Verification hook, compiled only with `--cfg noodles_verif`.
+//!
+//! Lets a test harness delay individual worker-pool tasks of the multithreaded reader and writer
+//! so that any completion order can be forced. Without an installed gate this is a no-op.
+
+use std::sync::{
+    Arc, RwLock,
+    atomic::{AtomicU64, Ordering},
+};
+
+/// The kind of worker task entering the gate.
+#[derive(Clone, Copy, Debug, Eq, PartialEq)]
+pub enum Kind {
+    /// A block compression task of the multithreaded writer.
+    Deflate,
+    /// A block decompression task of the multithreaded reader.
+    Inflate,
+}
+
+type Gate = Arc<dyn Fn(Kind, u64) + Send + Sync>;
+
+static GATE: RwLock<Option<Gate>> = RwLock::new(None);
+static DEFLATE_SEQ: AtomicU64 = AtomicU64::new(0);
+static INFLATE_SEQ: AtomicU64 = AtomicU64::new(0);
+
+/// Installs (or removes) the gate and resets the task sequence numbers.
+pub fn set(gate: Option<Gate>) {
+    *GATE.write().unwrap() = gate;
+    DEFLATE_SEQ.store(0, Ordering::SeqCst);
+    INFLATE_SEQ.store(0, Ordering::SeqCst);
+}
+
+pub(crate) fn next_seq(kind: Kind) -> u64 {
+    match kind {
+        Kind::Deflate => DEFLATE_SEQ.fetch_add(1, Ordering::SeqCst),
+        Kind::Inflate => INFLATE_SEQ.fetch_add(1, Ordering::SeqCst),
+    }
+}
+
+pub(crate) fn enter(kind: Kind, seq: u64) {
+    let gate = GATE.read().unwrap().clone();
+
+    if let Some(f) = gate {
+        f(kind, seq);
+    }
+}
